@@ -300,7 +300,7 @@ def main(argv=None):
         vq = r.get("vacuity", {})
         if r.get("paths", 0) > 0 and vq.get("paths_sat", 0) == 0 and vq.get("paths_unknown", 0) > 0:
             inconclusive.append(dict(item=cfg.get("id"), why="vacuity guard: path feasibility unknown"))
-        if r.get("paths", 0) > 0 and vq.get("paths_sat", 0) == 0 and vq.get("paths_unknown", 0) == 0 \
+        if r.get("paths", 0) > 0 and vq.get("paths_sat", 0) == 0 and vq.get("paths_unknown", 0) == 0 and not r.get("deadline_hit") \
                 and not r.get("exceptions") and not r.get("allow_vacuous") and r.get("aborted", 0) < r.get("paths", 0):
             harness_errors.append("item %s: VACUOUS (no path with satisfiable constraints)" % cfg.get("id"))
         for o in r.get("obligations", []):
